@@ -29,6 +29,14 @@ pub fn replay(args: &HashMap<String, String>) {
     };
     let do_step = prop == "C06" || prop == "both";
     let do_opt = prop == "C04" || prop == "both";
+    // rule-level model of the optimiser (ClassicOpt.tla): what it answers for each enumerated term
+    let mut model_opt: HashMap<String, Value> = HashMap::new();
+    if do_opt && !args.contains_key("ndjson") {
+        for o in read_tlc_vectors(input, "O") {
+            model_opt.entry(o["prog"].to_string()).or_insert(o["mopt"].clone());
+        }
+    }
+    let mut seen_model: std::collections::HashSet<String> = std::collections::HashSet::new();
     let jobs: Vec<Value> = vectors
         .iter()
         .map(|v| {
@@ -94,6 +102,20 @@ pub fn replay(args: &HashMap<String, String>) {
         }
         if do_opt {
             let o = &r["opt"];
+            // conformance of the rule-level model: same answer term for term (a difference is drift of the model, not a
+            // violation: the property is judged on values)
+            let key = v["prog"].to_string();
+            if let Some(m) = model_opt.get(&key) {
+                if seen_model.insert(key) && m[0] != "unk" {
+                    rep.count("model_opt_compared");
+                    let same = if m[0] == "ok" { o.get("out").map(|x| *x == m[1]).unwrap_or(false) } else { o.get("out").is_none() };
+                    if !same {
+                        rep.drift(json!({"what": "ClassicOpt.tla answers another term than optimize_sexp", "prog_text": progv.show(), "model": m,
+                            "model_text": if m[0] == "ok" { V::from_json(&m[1]).map(|x| x.show()).unwrap_or_default() } else { "rejects".to_string() },
+                            "real": o.get("out").and_then(|x| V::from_json(x).ok()).map(|x| x.show()).unwrap_or_else(|| "rejects".to_string())}));
+                    }
+                }
+            }
             if o.get("changed").and_then(|b| b.as_bool()).unwrap_or(false) {
                 rep.count("opt_changed");
                 rep.nontrivial(&format!("{}|{}", v["prog"], v["env"]));
